@@ -6,6 +6,7 @@ import LdkModel.Model.Timing
 import LdkModel.Proofs.NodeStep
 import LdkModel.Proofs.NodeRun
 import LdkModel.Proofs.NodeSafe
+import LdkModel.Proofs.NodeSafeAny
 namespace Ldk.C08
 open Ldk Ldk.Timing Ldk.NodeStep
 
@@ -342,6 +343,94 @@ example : Safe { inCltv := 188, outCltv := 140, monBest := 100, inCell := false,
 example : OneAtATime { inCltv := 188, outCltv := 140, monBest := 100, inCell := false, outLive := true }
     [.block 101 .plain false false, .preimage, .block 102 .plain false false] := by
   unfold OneAtATime; refine ⟨rfl, ?_⟩; unfold OneAtATime; refine ⟨by decide, ?_⟩; unfold OneAtATime; exact ⟨by decide, trivial⟩
+
+/-! ### Round 6: the property for ANY delivered heights (jumps, re-announced and lower heights) -/
+
+/-- WHOLE HISTORIES, ANY HEIGHTS — the property itself without the one-height-at-a-time hypothesis. In EVERY history (blocks at
+    any heights: the next one, jumps of any size as Confirm clients deliver them, heights announced again after a restart, lower
+    heights; any exits, confirmations, holding-cell releases, releases of a held intercepted forward) in which the downstream
+    preimage — if it comes — comes while the upstream HTLC is not yet inside its own on-chain window at the node's best height,
+    starting from any state that is itself in time, after every event the node has acted before the height (as far as it has
+    been told heights) at which money could be lost: the same five clauses as `acted_before_money_could_be_lost`, which is the
+    special case `OneAtATime` (`one_at_a_time_is_special_case`). -/
+theorem acted_before_money_could_be_lost_any_heights (s : St) (es : List Ev) (hs : Safe s) (ho : PreimageInTime s es) :
+    ((run s es).1.outLive = true → (run s es).1.downBroadcast = none →
+        (run s es).1.monBest < (run s es).1.outCltv + LATENCY_GRACE_PERIOD_BLOCKS) ∧
+    ((run s es).1.inCell = true → (run s es).1.monBest + LATENCY_GRACE_PERIOD_BLOCKS < (run s es).1.outCltv) ∧
+    ((run s es).1.intercepted = true → (run s es).1.monBest + HTLC_FAIL_BACK_BUFFER < (run s es).1.outCltv) ∧
+    ((run s es).1.preimage = true → (run s es).1.up = .pending → (run s es).1.upBroadcast = none →
+        (run s es).1.monBest + CLTV_CLAIM_BUFFER < (run s es).1.inCltv) ∧
+    (run s es).1.outCltv + MIN_CLTV_EXPIRY_DELTA ≤ (run s es).1.inCltv := by
+  obtain ⟨⟨c1, c2, c3, c4⟩, wf⟩ := run_safe_any es s hs ho
+  generalize (run s es).1 = q at *
+  refine ⟨fun a b => ?_, fun a => ?_, fun a => ?_, fun a b d => ?_, wf⟩
+  · have h1 := c1 a b
+    cases hp : q.preimage <;> rw [hp] at h1 <;> timing_omega
+  · have h1 := c2 a
+    timing_omega
+  · have h1 := c4 a
+    simp only [interceptTimedOut] at h1
+    timing_omega
+  · have h1 := c3 a b d
+    timing_omega
+example : PreimageInTime { inCltv := 188, outCltv := 140, monBest := 100, inCell := false, outLive := true }
+    [.block 120 .plain false false, .block 120 .plain false false, .block 90 .plain false false, .preimage,
+     .block 150 .plain false false] := by
+  unfold PreimageInTime; refine ⟨trivial, ?_⟩; unfold PreimageInTime; refine ⟨trivial, ?_⟩
+  unfold PreimageInTime; refine ⟨trivial, ?_⟩; unfold PreimageInTime; refine ⟨by decide, ?_⟩
+  unfold PreimageInTime; exact ⟨trivial, trivial⟩
+
+/-- the hypothesis of `acted_before_money_could_be_lost` implies the one of `…_any_heights` -/
+theorem one_at_a_time_is_special_case (s : St) (es : List Ev) (hs : Safe s) (ho : OneAtATime s es) : PreimageInTime s es :=
+  oneAtATime_preimageInTime es s hs ho
+
+/-- WHOLE HISTORIES, NO HYPOTHESIS ON THE HISTORY AT ALL (any heights, a preimage arriving whenever and however late): the
+    downstream-facing clauses hold after every event — a live outbound HTLC whose commitment is not on the wire, a forward in
+    the holding cell, a held intercepted forward are never past their deadlines at the node's best height. -/
+theorem acted_downstream_in_every_history (s : St) (es : List Ev) (hs : SafeDown s) :
+    ((run s es).1.outLive = true → (run s es).1.downBroadcast = none →
+        (run s es).1.monBest < (run s es).1.outCltv + LATENCY_GRACE_PERIOD_BLOCKS) ∧
+    ((run s es).1.inCell = true → (run s es).1.monBest + LATENCY_GRACE_PERIOD_BLOCKS < (run s es).1.outCltv) ∧
+    ((run s es).1.intercepted = true → (run s es).1.monBest + HTLC_FAIL_BACK_BUFFER < (run s es).1.outCltv) := by
+  obtain ⟨c1, c2, c4⟩ := run_safeDown es s hs
+  generalize (run s es).1 = q at *
+  refine ⟨fun a b => ?_, fun a => ?_, fun a => ?_⟩
+  · have h1 := c1 a b
+    cases hp : q.preimage <;> rw [hp] at h1 <;> timing_omega
+  · have h1 := c2 a
+    timing_omega
+  · have h1 := c4 a
+    simp only [interceptTimedOut] at h1
+    timing_omega
+example : SafeDown { inCltv := 188, outCltv := 140, monBest := 100, inCell := false, outLive := true } := by
+  unfold SafeDown C1 C2 C4; decide
+
+/-- FROM ANY STATE (no invariant assumed: a preimage that came late, a node that was offline for days): ONE block at any height
+    the monitors process puts the node back in time at that height in every respect — whatever should have happened by then
+    (downstream commitment broadcast, holding-cell / intercepted fail-back, upstream commitment broadcast) HAS happened in
+    that very step. -/
+theorem every_processed_block_restores_safety (s : St) (h : Nat) (x : BbuExit) (c t : Bool) (hp : s.monBest < h) :
+    (nodeStep s (.block h x c t)).1.monBest = h ∧
+    ((nodeStep s (.block h x c t)).1.outLive = true → (nodeStep s (.block h x c t)).1.downBroadcast = none →
+        h < (nodeStep s (.block h x c t)).1.outCltv + LATENCY_GRACE_PERIOD_BLOCKS) ∧
+    ((nodeStep s (.block h x c t)).1.inCell = true → h + LATENCY_GRACE_PERIOD_BLOCKS < (nodeStep s (.block h x c t)).1.outCltv) ∧
+    ((nodeStep s (.block h x c t)).1.intercepted = true → h + HTLC_FAIL_BACK_BUFFER < (nodeStep s (.block h x c t)).1.outCltv) ∧
+    ((nodeStep s (.block h x c t)).1.preimage = true → (nodeStep s (.block h x c t)).1.up = .pending →
+        (nodeStep s (.block h x c t)).1.upBroadcast = none → h + CLTV_CLAIM_BUFFER < (nodeStep s (.block h x c t)).1.inCltv) := by
+  have hproc : monitorProcessesHeight h s.monBest = true := by simp [monitorProcessesHeight, hp]
+  obtain ⟨⟨c1, c2, c3, c4⟩, hb, _⟩ := block_processed s h x c t hproc
+  generalize (nodeStep s (.block h x c t)).1 = q at *
+  refine ⟨hb, fun a b => ?_, fun a => ?_, fun a => ?_, fun a b d => ?_⟩
+  · have h1 := c1 a b
+    cases hq : q.preimage <;> rw [hq] at h1 <;> timing_omega
+  · have h1 := c2 a
+    timing_omega
+  · have h1 := c4 a
+    simp only [interceptTimedOut] at h1
+    timing_omega
+  · have h1 := c3 a b d
+    timing_omega
+example : (nodeStep { inCltv := 188, outCltv := 140, monBest := 100, inCell := false, outLive := true, preimage := true, upResponsive := false } (.block 170 .plain false false)).2 = [.broadcastDown, .broadcastTimeout, .broadcastUp] := by decide
 
 /-- (round 5b) The trampoline-forward timeout arm of `do_chain_event`: a trampoline forward still waiting for parts is given up
     exactly when SOME part is within `HTLC_FAIL_BACK_BUFFER` of its expiry (the earliest part decides: all parts are failed
